@@ -112,12 +112,21 @@ class Branch(Term, metaclass=abc.ABCMeta):
         if szout > 1:
             replicas = szout - 1
             queue = collections.deque(maxlen=replicas)
-            return [Push(queue, term, replicas), *(Pop(queue, repr(term)) for _ in range(replicas))]
+            return [Replica(queue, term, replicas) for _ in range(szout)]
         return [term]
 
+    def reset(self) -> None:
+        """Drop any outstanding replicas (left behind by an interrupted evaluation)."""
+        self._queue.clear()
 
-class Push(Branch):
-    """Helper branch term for producing value replicas to make them available in parallel branches."""
+
+class Replica(Branch):
+    """Helper branch term for making the value of a forked term available in parallel branches.
+
+    All the branches of a fork are equivalent - whichever gets evaluated first produces the value
+    and queues its replicas for the remaining ones (so that the result does not depend on the order
+    in which the consumers evaluate their arguments).
+    """
 
     def __init__(self, queue: typing.Deque[typing.Any], term: Term, replicas: int):
         assert replicas > 0
@@ -126,21 +135,12 @@ class Push(Branch):
         self._replicas: int = replicas
 
     def __call__(self, arg: typing.Any) -> typing.Any:
-        assert not self._queue, 'Outstanding elements'
+        if self._queue:
+            return self._queue.popleft()
         value = self._term(arg)
         for _ in range(self._replicas):
             self._queue.append(value)  # assuming we are duplicating just the reference
         return value
-
-
-class Pop(Branch):
-    """Helper branch term for accessing the replicated values created in parallel branch."""
-
-    def __call__(self, arg: typing.Any) -> typing.Any:
-        return self._queue.popleft()
-
-    def __del__(self):
-        assert not self._queue, 'Outstanding elements'
 
 
 class Expression(Term):
@@ -156,18 +156,30 @@ class Expression(Term):
     def __init__(self, symbols: typing.Iterable[flow.Symbol]):
         dag = self._build(symbols)
         assert len(dag) > 0 and dag[-1].szout == 0 and not dag[0].args, 'Invalid DAG'
+        self._forks: list[Branch] = []
         providers: typing.Mapping[Term, typing.Deque[Term]] = {n.term: collections.deque([n.term]) for n in dag}
+        providers[dag[0].term] = collections.deque(self._fork(dag[0].term, dag[0].szout))
 
         for node in dag[1:]:
             args = [providers[a].popleft() for a in node.args]
             term = (Zip if len(args) > 1 else Chain)(providers[node.term].popleft(), *args)
-            providers[node.term].extend(Branch.fork(term, node.szout))
+            providers[node.term].extend(self._fork(term, node.szout))
         assert len(providers[dag[-1].term]) == 1
         self._term: Term = providers[dag[-1].term].popleft()
         assert not any(providers.values()), 'Outstanding providers'
 
+    def _fork(self, term: Term, szout: int) -> typing.Iterable[Term]:
+        """Fork the term for all of its consumers keeping track of the created branches."""
+        terms = Branch.fork(term, szout)
+        self._forks.extend(t for t in terms[:1] if isinstance(t, Branch))  # one per shared queue
+        return terms
+
     def __call__(self, arg: typing.Any) -> typing.Any:
-        return self._term(arg)
+        try:
+            return self._term(arg)
+        finally:
+            for fork in self._forks:
+                fork.reset()  # replicas must never outlive the evaluation that produced them
 
     def __repr__(self):
         return repr(self._term)
